@@ -99,7 +99,7 @@ Proof.
       assert (Step : li_warn i' = false -> linv a0 a1 e0 g (li_next i')).
       { intros Wf. cbn [li_warn i'] in Wf.
         apply orb_false_elim in Wf. destruct Wf as [Wf Wa]. apply orb_false_elim in Wf. destruct Wf as [Wi Wu].
-        destruct (step_covers (li_next i) a0 a1 e B0 B1 Be Dj _ _ _ st c g ast U Cl An Wu Wa) as (C1 & _ & _ & C4 & C5).
+        destruct (step_covers (li_next i) a0 a1 e B0 B1 Be Dj _ _ _ st c g ast U Cl An Wu Wa) as (C1 & _ & _ & C4 & C5 & _).
         destruct (pass_frame (li_next i) a1 e B1 Be _ true st U) as [L _].
         cbn [li_next i']. constructor.
         - eapply below_mono; [exact C5|exact B0].
@@ -115,6 +115,46 @@ Proof.
   - (* not unifiable *)
     cbn [res_ok]. intros Wf. cbn [li_warn] in Wf. apply orb_false_elim in Wf. destruct Wf as [Wi Wu].
     split; [exact Sup|]. exact (step_disjoint (li_next i) a0 a1 e B1 Be Dj _ st U Wu).
+Qed.
+
+(** the returned axis has the size of the initial one, and each of its physical axes one size *)
+Theorem psolve_loop_gen_shape (exit : list aentry -> bool) : forall fuel a0 a1 e0 e i,
+  linv a0 a1 e0 e (li_next i) ->
+  match psolve_loop_gen exit fuel a0 a1 e i with
+  | LDone g _ i' => li_warn i' = false ->
+      numel g = numel e /\ (forall k n n', In (k, n) (fvn g) -> In (k, n') (fvn g) -> n = n')
+  | _ => True
+  end.
+Proof.
+  induction fuel as [|fuel IH]; intros a0 a1 e0 e i Inv; [exact I|].
+  cbn [psolve_loop_gen] in *.
+  destruct Inv as [B0 B1 Be Dj Sup].
+  change {| us_subst := []; us_next := li_next i; us_warn := false |} with (ust0 (li_next i)) in *.
+  destruct (unify (ps_ufuel e a1) e a1 (ust0 (li_next i))) as [[[|] st]|] eqn:U; [| |exact I]; [|exact I].
+  destruct (clone (ps_cfuel (us_subst st) a0) (us_subst st) a0) as [c|] eqn:Cl; [|exact I].
+  change {| as_list := []; as_next := us_next st; as_warn := false |} with (astate0 (us_next st)) in *.
+  destruct (antiunify (ps_afuel e c) e c (astate0 (us_next st))) as [[g ast]|] eqn:An; [|exact I].
+  set (i' := mkLI (S (li_iters i)) (as_next ast) (li_warn i || us_warn st || as_warn ast) (li_trace i ++ [(us_subst st, c)])) in *.
+  assert (Facts : li_warn i' = false ->
+            linv a0 a1 e0 g (li_next i') /\ numel g = numel e /\ (forall k n n', In (k, n) (fvn g) -> In (k, n') (fvn g) -> n = n')).
+  { intros Wf. cbn [li_warn i'] in Wf.
+    apply orb_false_elim in Wf. destruct Wf as [Wf Wa]. apply orb_false_elim in Wf. destruct Wf as [Wi Wu].
+    destruct (step_covers (li_next i) a0 a1 e B0 B1 Be Dj _ _ _ st c g ast U Cl An Wu Wa) as (C1 & _ & _ & C4 & C5 & C6 & C7).
+    destruct (pass_frame (li_next i) a1 e B1 Be _ true st U) as [L _].
+    split; [|split; [exact C6|exact C7]].
+    cbn [li_next i']. constructor.
+    - eapply below_mono; [exact C5|exact B0].
+    - eapply below_mono; [exact C5|exact B1].
+    - intros k Hk. exact (proj2 (C4 k Hk)).
+    - intros k Hk Hin. pose proof (proj1 (C4 k Hk)) as Lk. apply in_app_or in Hin.
+      destruct Hin as [Hin|Hin]; [pose proof (B0 k Hin)|pose proof (B1 k Hin)]; lia.
+    - intros v Hv. apply C1. apply Sup. exact Hv. }
+  destruct (exit (as_list ast)) eqn:Ex.
+  - intros Wf. exact (proj2 (Facts Wf)).
+  - pose proof (loop_warn_false exit fuel a0 a1 g i') as WF'.
+    specialize (IH a0 a1 e0 g i').
+    destruct (psolve_loop_gen exit fuel a0 a1 g i') as [g' ents' i''|e' i''|e' i''|er]; try exact I.
+    intros Wf. destruct (Facts (WF' Wf)) as (Inv' & N & _). destruct (IH Inv' Wf) as [N' Cs]. split; [congruence|exact Cs].
 Qed.
 
 (** the loop is only left through its exit test *)
